@@ -21,9 +21,19 @@ type cborLeaf struct {
 	headPos int
 }
 
+// cborArray is one array of the tree: its head, its element spans.
+type cborArray struct {
+	path    string
+	headPos int
+	first   int      // offset of the first element
+	end     int      // offset after the last element
+	elems   [][2]int // [start,end) of every element
+}
+
 type cborWalker struct {
 	b      []byte
 	leaves []cborLeaf
+	arrays []cborArray
 	err    error
 }
 
@@ -92,12 +102,19 @@ func (w *cborWalker) item(pos int, path string, idx []int, asKey bool) int {
 		return next + int(arg)
 	case 4:
 		p := next
+		ai := len(w.arrays)
+		w.arrays = append(w.arrays, cborArray{path: path, headPos: pos, first: next})
+		var spans [][2]int
 		for i := 0; i < int(arg); i++ {
-			p = w.item(p, fmt.Sprintf("%s/a%d", path, i), append(idx, i), false)
-			if p < 0 {
+			q := w.item(p, fmt.Sprintf("%s/a%d", path, i), append(idx, i), false)
+			if q < 0 {
 				return -1
 			}
+			spans = append(spans, [2]int{p, q})
+			p = q
 		}
+		w.arrays[ai].elems = spans
+		w.arrays[ai].end = p
 		return p
 	case 5:
 		p := next
@@ -281,4 +298,42 @@ func (l cborLeaf) lengthVariants(b []byte, fill func(n int) []byte) map[string][
 		out["truncate1"] = l.withContent(b, c[:len(c)-1])
 	}
 	return out
+}
+
+func cborArrays(b []byte) ([]cborArray, error) {
+	w := &cborWalker{b: b}
+	end := w.item(0, "", nil, false)
+	if w.err != nil || end != len(b) {
+		if w.err == nil {
+			w.err = fmt.Errorf("trailing bytes")
+		}
+		return nil, w.err
+	}
+	return w.arrays, nil
+}
+
+// rebuild returns b with this array replaced by one holding the given elements (byte spans of b).
+func (a cborArray) rebuild(b []byte, elems [][2]int) []byte {
+	out := append([]byte{}, b[:a.headPos]...)
+	out = append(out, cborHead(4, uint64(len(elems)))...)
+	for _, e := range elems {
+		out = append(out, b[e[0]:e[1]]...)
+	}
+	return append(out, b[a.end:]...)
+}
+
+// countVariants: one element appended (a copy of the last), an element duplicated in place
+// (the first), the last element dropped.  Ordered: the growing variants first.
+func (a cborArray) countVariants(b []byte) (names []string, out [][]byte) {
+	n := len(a.elems)
+	if n == 0 {
+		return nil, nil
+	}
+	names = append(names, "append-element")
+	out = append(out, a.rebuild(b, append(append([][2]int{}, a.elems...), a.elems[n-1])))
+	names = append(names, "duplicate-element")
+	out = append(out, a.rebuild(b, append([][2]int{a.elems[0], a.elems[0]}, a.elems[1:]...)))
+	names = append(names, "drop-element")
+	out = append(out, a.rebuild(b, a.elems[:n-1]))
+	return names, out
 }
